@@ -46,7 +46,12 @@ FollowPool(i) == IF i = 1 THEN { <<NTS[2], t>> : t \in TERMS }
                  ELSE {<<>>} \cup { <<t>> : t \in TERMS } \cup { <<N, t>> : N \in Later(i), t \in TERMS }
                       \cup { <<t, M>> : t \in TERMS, M \in Later(i) }
                       \cup { <<N, t, M>> : N \in Later(i), t \in TERMS, M \in Later(i) }
-AltPool == IF Pool = "follow" THEN UNION { FollowPool(i) : i \in 1 .. Len(NTS) }
+(* "cycle": A -> c B c; the other symbols are <<>>, <<t, N>> or <<t, N>> | <<>> with N ANY of them (tail recursion in *)
+(* cycles: what may follow a symbol depends on what may follow the others, in cycles of length 2 and 3)              *)
+CyclePool(i) == IF i = 1 THEN { <<"c", NTS[2], "c">> }
+                ELSE {<<>>} \cup { <<t, NTS[j]>> : t \in {"a", "b"}, j \in 2 .. Len(NTS) }
+AltPool == IF Pool = "cycle" THEN UNION { CyclePool(i) : i \in 1 .. Len(NTS) }
+           ELSE IF Pool = "follow" THEN UNION { FollowPool(i) : i \in 1 .. Len(NTS) }
            ELSE IF Pool = "rep" THEN UNION { RepPool(i) : i \in 1 .. Len(NTS) }
            ELSE IF Pool = "terms" THEN { Pfx \o t : t \in UNION { [1 .. n -> TERMS] : n \in 0 .. MaxLen } }     \* terminals only
            ELSE IF Pool = "chain" THEN UNION { ChainPool(i) : i \in 1 .. Len(NTS) }
@@ -68,6 +73,7 @@ AddAlt(alt) ==
   /\ (Pool = "chain" => alt \in ChainPool(cur))
   /\ (Pool = "rep" => alt \in RepPool(cur))
   /\ (Pool = "follow" => alt \in FollowPool(cur) /\ (cur <= 2 => prods[cur] = <<>>))
+  /\ (Pool = "cycle" => alt \in CyclePool(cur) /\ (prods[cur] # <<>> => cur > 1 /\ alt = <<>>))
   /\ (Pool = "nts" /\ Len(alt) > 1 =>               \* one sequence of non-terminals in the whole grammar
          \A j \in 1 .. Len(NTS) : \A i \in 1 .. Len(prods[j]) : Len(prods[j][i]) <= 1)
   /\ prods' = [prods EXCEPT ![cur] = Append(@, alt)]
@@ -81,7 +87,7 @@ Grammar(s) == [nts |-> NtSet, terms |-> TERMS, start |-> s,
 
 Finish(s) ==
   /\ phase = "build" /\ cur = Len(NTS) /\ prods[cur] # <<>>
-  /\ (Pool \in {"chain", "rep", "follow"} => s = NTS[1])
+  /\ (Pool \in {"chain", "rep", "follow", "cycle"} => s = NTS[1])
   /\ start' = s /\ phase' = "done"
   /\ LET G == Grammar(s) IN
        Emit => PrintT(ToJson([start   |-> s,
